@@ -1091,6 +1091,14 @@ def function_sweep(chk, rng):
              ('spline', lambda: zepid.spline(df, 'L2', n_knots=3, term=2, restricted=True), [df]),
              ('table1_generator', lambda: zepid.table1_generator(df, ['L1', 'L2'], ['category', 'continuous'],
                                                                 strat_by='A'), [df])]
+    est = rng.normal(size=6)
+    ses = rng.uniform(0.1, 0.5, size=6)
+    pv = rng.uniform(0.001, 0.9, size=6)
+    calls += [('rubins_rules', lambda: cu.rubins_rules(est, ses), [est, ses]),
+              ('s_value', lambda: cu.s_value(pv), [pv])]
+    for cls in ('Sensitivity', 'Specificity', 'Diagnostics'):
+        calls.append((cls + '.fit', (lambda c: lambda: getattr(zepid, c)().fit(df, test='L1', disease='L3'))(cls),
+                      [df]))
     for cls in ('RiskRatio', 'RiskDifference', 'OddsRatio', 'NNT'):
         calls.append((cls + '.fit', (lambda c: lambda: getattr(zepid, c)().fit(df, exposure='A', outcome='Y'))(cls),
                       [df]))
@@ -1140,6 +1148,14 @@ def choose_cells(rng, spec, tier):
 def run(chk, drv, rng, tier):
     specs = mk_specs()
     quick = tier == 'quick'
+    # H: np.random.seed reproduces the global stream the Monte Carlo steps draw from
+    np.random.seed(12345)
+    a1 = (np.random.binomial(1, 0.3, 50), np.random.choice(50, 10, replace=False))
+    np.random.seed(12345)
+    a2 = (np.random.binomial(1, 0.3, 50), np.random.choice(50, 10, replace=False))
+    chk.h_checked += 1
+    if not (np.array_equal(a1[0], a2[0]) and np.array_equal(a1[1], a2[1])):
+        chk.discard('np.random.seed does not reproduce the stream')
     function_sweep(chk, rng)
     cells_done = []
     only = os.environ.get('C11_ONLY')
